@@ -91,8 +91,9 @@ Proof.
     + cbn [xstate]. rewrite Hx, !trig_apply. unfold block_events. by rewrite app_assoc.
 Qed.
 
-(* every store event carries the value the cell holds right after that operation *)
-Lemma rstep_put_value c v o : ok (rstep c v o) = KPut → cstep c v o = Some (oval (rstep c v o)).
+(* every store event carries the value the cell holds right after that operation (as the column
+   reads it: [ccast] is the identity except for narrow entries of int / uint columns) *)
+Lemma rstep_put_value c v o : ok (rstep c v o) = KPut → cstep c v o = Some (ccast c (oval (rstep c v o))).
 Proof.
   unfold rstep, cstep, rewrite_op, cell_step. destruct (ok o) eqn:K; try (rewrite K; done).
   destruct (cmerges c); [done|]. rewrite K. done.
@@ -139,29 +140,38 @@ Proof.
   - by rewrite filter_cons_False.
 Qed.
 
+(* the column does not change the bytes of what it stores (true of every string column: their
+   cast is the identity) *)
+Definition cast_keeps_bytes (c : column) : Prop := ∀ v, vbytes_of (ccast c v) = vbytes_of v.
+
 Lemma sort_rel_rw c v e l :
+  cast_keeps_bytes c →
   sort_rel v e → sort_rel (foldl (cstep c) v l) (foldl tree_step e (rw_list c v l)).
 Proof.
-  revert v e; induction l as [|o r IH]; intros v e R; [done|].
+  intro Hk. revert v e; induction l as [|o r IH]; intros v e R; [done|].
   cbn [rw_list foldl]. apply IH.
   unfold sort_rel, cstep, rstep, tree_step, cell_step, rewrite_op in *.
-  destruct (ok o) eqn:K; try (rewrite K; done).
-  destruct (cmerges c); [done|]. rewrite K. done.
+  destruct (ok o) eqn:K; try (rewrite K; done); try (rewrite K; cbn; by rewrite Hk).
+  destruct (cmerges c); [cbn; by rewrite Hk|]. rewrite K. done.
 Qed.
 
 Definition SortOK (s : coll) : Prop :=
   ∀ e tree col, e ∈ comps s → xstate e = XSorted tree → cols s !! xtarget e = Some col →
+    cast_keeps_bytes col →
     ∀ i, tree !! i = vbytes_of <$> (cells col !! i).
 
 Theorem commit_block_sort_ok s t b : wf_row t → SortOK s → SortOK (commit_block s t b).
 Proof.
-  intros Hr Inv e' tree' col' He' Hx' Hc' i.
+  intros Hr Inv e' tree' col' He' Hx' Hc' Hk' i.
   rewrite commit_block_comps in He'. apply elem_of_list_fmap in He' as (e & -> & He).
   cbn [xstate xtarget] in *.
   destruct (cols s !! xtarget e) as [col|] eqn:Hc.
   2:{ rewrite (commit_block_cols_none s t b _ Hc) in Hc'. done. }
   destruct (commit_block_cells2 s t b _ col Hc) as (c2 & Hc2 & Hcells).
   rewrite Hc' in Hc2. injection Hc2 as <-. specialize (Hcells i).
+  assert (Hk : cast_keeps_bytes col).
+  { destruct (commit_block_cols s t b _ col Hc) as (c3 & Hc3 & _ & _ & _ & Hq & _).
+    rewrite Hc' in Hc3. injection Hc3 as <-. intro v. rewrite <- Hq. apply Hk'. }
   destruct (xstate e) as [| |tree0] eqn:Hx.
   - exfalso. destruct (idx_apply rule bits (rw_block s t b (xtarget e))) as (b1 & E1 & _). rewrite E1 in Hx'.
     destruct (idx_apply rule b1 (marks_block t b)) as (b2 & E2 & _). rewrite E2 in Hx'. done.
@@ -173,7 +183,7 @@ Proof.
     { apply no_merge_filter. unfold marks_block. apply no_merge_filter. by apply wf_row_no_merge. }
     fold (marks_block t b).
     rewrite <- (rw_list_no_merge col (foldl (cstep col) (cells col !! i) (filter (λ o, ooff o = i) (filter (λ o, in_blk b o = true) (buf t (xtarget e))))) _ Hnm) at 1.
-    apply sort_rel_rw, sort_rel_rw. exact (Inv e tree0 col He Hx Hc i).
+    apply sort_rel_rw; [done|]. apply sort_rel_rw; [done|]. exact (Inv e tree0 col He Hx Hc Hk i).
 Qed.
 
 Theorem commit_sort_ok s t : wf_row t → SortOK s → SortOK (commit s t).
@@ -184,7 +194,7 @@ Qed.
 
 Theorem create_sorted_ok s id tg tree0 : SortOK s → SortOK (create_computed s id tg (XSorted tree0)).
 Proof.
-  intros Inv e tree col He Hx Hc i. unfold create_computed in *.
+  intros Inv e tree col He Hx Hc Hk i. unfold create_computed in *.
   destruct (cols s !! tg) as [ct|] eqn:Ht; [|by eapply Inv].
   cbn [comps cols] in *. apply elem_of_app in He as [He|He]; [by eapply Inv|].
   apply elem_of_list_singleton in He. subst e. cbn [xstate xtarget build_computed] in *.
